@@ -544,7 +544,12 @@ class Effects:
                         return IMM
             if p.kind in ("vararg", "kwarg"):
                 return Val({F}, {("P", f, p.index)})
-            return Val({("P", f, p.index)}, {("P*", f, p.index)})
+            pv = Val({("P", f, p.index)}, {("P*", f, p.index)})
+            if p.default is not None:
+                # the default object is evaluated once, at definition: whenever a caller leaves the argument out the
+                # parameter IS that object (shared between calls when it is mutable)
+                pv = pv.join(self._default_val(p.default, f))
+            return pv
         if kind == "assign":
             return self.val(b[1], f)
         if kind == "aug":
@@ -755,11 +760,25 @@ class Effects:
                 vals.append(Val(base.own, base.cont))
             else:
                 vals.append(Val(base.cont, deref(base.cont)))
+        # a mutable object created in the class body is one object shared by every instance that reads it
+        for t in ts:
+            if t[0] in ("inst", "cls") and hasattr(t[1], "lookup"):
+                hit = t[1].lookup(attr)
+                if hit and hit[0] == "const" and self._mutable_alloc(hit[1]):
+                    vals.append(GLOBV)
         v = joinall(vals)
         # declared-immutable results
         if isinstance(f, Func) and node is not None and self._is_immutable_expr(node, f):
             return IMM
         return v
+
+    @staticmethod
+    def _mutable_alloc(e):
+        if isinstance(e, (ast.Dict, ast.List, ast.Set, ast.ListComp, ast.DictComp, ast.SetComp)):
+            return True
+        return isinstance(e, ast.Call) and dotted(e.func) in (
+            "dict", "list", "set", "defaultdict", "collections.defaultdict", "OrderedDict", "collections.OrderedDict",
+            "deque", "collections.deque", "Counter", "collections.Counter", "bytearray")
 
     def _getter_covers(self, typed, attr):
         """True when every typed receiver class resolves `attr` to a property."""
